@@ -129,14 +129,25 @@ func Handler(backendPort int, passthroughHandler http.Handler) http.Handler {
 			return
 		}
 		defer backendConn.Close()
+		// When either direction of the bridge ends (because one of the peers
+		// closed its connection or failed), close both connections so that the
+		// other direction also ends and the other peer observes the close.
+		//
+		// Everything read before that point has already been written by io.Copy.
+		closeBoth := func() {
+			backendConn.Close()
+			frontendConn.Close()
+		}
 		var wg sync.WaitGroup
 		wg.Add(2)
 		go func() {
 			defer wg.Done()
+			defer closeBoth()
 			io.Copy(backendConn, frontendConn)
 		}()
 		go func() {
 			defer wg.Done()
+			defer closeBoth()
 			io.Copy(frontendConn, backendConn)
 		}()
 		wg.Wait()
